@@ -625,3 +625,55 @@ Proof.
     apply trim_same. pose proof (trim_len s). lia. }
   unfold core_did_parse. rewrite T, list_eqb_refl'. cbn [negb]. rewrite (ends_with_pct_no_pct _ NP). exact H.
 Qed.
+
+(* ---- Eq / Ord / Hash agree with one another ---- *)
+Lemma bytes_cmp_eq a : forall b, bytes_cmp a b = Eq <-> a = b.
+Proof.
+  induction a as [|x a IH]; intros [|y b]; cbn [bytes_cmp]; try (split; [discriminate|discriminate]); [split; reflexivity|].
+  destruct (N.compare_spec x y) as [E|L|L].
+  - subst. rewrite IH. split; [intros ->; reflexivity|intros H; inversion H; reflexivity].
+  - split; [discriminate|]. intros H; inversion H; lia.
+  - split; [discriminate|]. intros H; inversion H; lia.
+Qed.
+Lemma bytes_cmp_antisym a : forall b, bytes_cmp b a = CompOpp (bytes_cmp a b).
+Proof.
+  induction a as [|x a IH]; intros [|y b]; cbn [bytes_cmp CompOpp]; try reflexivity.
+  rewrite (N.compare_antisym x y). destruct (N.compare x y); cbn [CompOpp]; [apply IH|reflexivity|reflexivity].
+Qed.
+Lemma list_eqb_iff a b : list_eqb a b = true <-> a = b.
+Proof. split; [apply list_eqb_eq|intros ->; apply list_eqb_refl']. Qed.
+
+(* Eq holds exactly when Ord answers Equal *)
+Theorem url_eq_iff_cmp u v : url_eqb u v = true <-> url_cmp u v = Eq.
+Proof.
+  unfold url_eqb, url_cmp. rewrite !andb_true_iff, !list_eqb_iff. split.
+  - intros [[[-> ->] ->] ->]. repeat (rewrite (proj2 (bytes_cmp_eq _ _) eq_refl)). reflexivity.
+  - destruct (bytes_cmp (u_did u) (u_did v)) eqn:E1; try discriminate. apply bytes_cmp_eq in E1.
+    destruct (bytes_cmp (oapp (u_path u)) (oapp (u_path v))) eqn:E2; try discriminate. apply bytes_cmp_eq in E2.
+    destruct (bytes_cmp (oapp (u_query u)) (oapp (u_query v))) eqn:E3; try discriminate. apply bytes_cmp_eq in E3.
+    intros E4. apply bytes_cmp_eq in E4. auto.
+Qed.
+(* Ord is antisymmetric *)
+Theorem url_cmp_antisym u v : url_cmp v u = CompOpp (url_cmp u v).
+Proof.
+  unfold url_cmp. rewrite (bytes_cmp_antisym (u_did u) (u_did v)). destruct (bytes_cmp (u_did u) (u_did v)); cbn [CompOpp]; try reflexivity.
+  rewrite (bytes_cmp_antisym (oapp (u_path u))). destruct (bytes_cmp (oapp (u_path u)) (oapp (u_path v))); cbn [CompOpp]; try reflexivity.
+  rewrite (bytes_cmp_antisym (oapp (u_query u))). destruct (bytes_cmp (oapp (u_query u)) (oapp (u_query v))); cbn [CompOpp]; try reflexivity.
+  apply bytes_cmp_antisym.
+Qed.
+(* equal values feed the same bytes to the hasher *)
+Theorem url_eq_same_hash_input u v : url_eqb u v = true -> url_hash_input u = url_hash_input v.
+Proof.
+  unfold url_eqb, url_hash_input, did_url_to_string. rewrite !andb_true_iff, !list_eqb_iff. intros [[[-> ->] ->] ->]. reflexivity.
+Qed.
+(* and for well-formed values (everything the parsers, setters and join produce outside K_pct) the converse holds: the string form
+   determines the value, so Eq, Ord = Equal, equal hasher input and equal string forms are one and the same relation *)
+Theorem url_string_injective u v : wf_url u -> wf_url v -> did_url_to_string u = did_url_to_string v -> u = v.
+Proof.
+  intros Wu Wv E. pose proof (wf_url_reparses u Wu) as Pu. pose proof (wf_url_reparses v Wv) as Pv. rewrite E in Pu. rewrite Pu in Pv. inversion Pv. reflexivity.
+Qed.
+Theorem url_eq_iff_string u v : wf_url u -> wf_url v -> (url_eqb u v = true <-> did_url_to_string u = did_url_to_string v).
+Proof.
+  intros Wu Wv. split; [apply url_eq_same_hash_input|]. intros E. rewrite (url_string_injective u v Wu Wv E).
+  unfold url_eqb. rewrite !list_eqb_refl'. reflexivity.
+Qed.
